@@ -238,7 +238,7 @@ fn update(cx: &CaseCtx, rep: &mut Report, rng: &mut Rng) {
 	}
 	let set = &sets[0];
 	rep.count("tiles_with_tables_beyond_16384_entries", set.layers.values().filter(|l| imvt::has_wide_table(l)).count() as u64);
-	let csv = gen_csv(rng);
+	let mut csv = gen_csv(rng);
 	if std::fs::write(dir.join("data.csv"), &csv.text).is_err() {
 		rep.inconclusive("cannot write the CSV fixture");
 		return;
@@ -248,7 +248,22 @@ fn update(cx: &CaseCtx, rep: &mut Report, rng: &mut Rng) {
 	sources.add("v0.x", Src::Mem { ts: set.tileset("v0"), pyramid: None, default_stream: rng.chance(0.3), yields: if rng.chance(0.3) { 1 } else { 0 }, open_yields: 0 });
 	let vpl = update_vpl("v0.x", &a);
 	cx.progress(&vpl);
-	let witness = |extra: serde_json::Value| json!({"vpl": vpl, "csv_head": csv.text.lines().take(6).collect::<Vec<_>>(), "source_compression": set.comp.name(), "encoder": format!("{enc:?}"), "detail": extra});
+	// generation 1: the data file is rewritten under the same name with other values of exactly the same byte
+	// length (same ids, value cells moved to the next row) and the pipeline is built again in this process — the
+	// join has to follow the file as it is when the pipeline is built
+	let generations = if cx.tier.is_tiny() { 1 } else { 2 };
+	for generation in 0..generations {
+	if generation == 1 {
+		let Some(c2) = crate::mvtsrc::csv_second_generation(&csv) else { break };
+		if std::fs::write(dir.join("data.csv"), &c2.text).is_err() {
+			rep.inconclusive("cannot rewrite the CSV fixture");
+			return;
+		}
+		csv = c2;
+		rep.count("update_cases_with_rewritten_table", 1);
+	}
+	let gen_tag = if generation == 1 { "regen-" } else { "" };
+	let witness = |extra: serde_json::Value| json!({"vpl": vpl, "generation": generation, "csv_head": csv.text.lines().take(6).collect::<Vec<_>>(), "source_compression": set.comp.name(), "encoder": format!("{enc:?}"), "detail": extra});
 	let (reader, _) = match guard::catch(|| guard::block_on(pipe::build(&vpl, &sources, Some(&dir)))) {
 		Err(p) => {
 			rep.violation(&p.signature("build-update-properties"), "building the pipeline panicked", witness(json!({"panic": p.describe()})));
@@ -318,7 +333,7 @@ fn update(cx: &CaseCtx, rep: &mut Report, rng: &mut Rng) {
 		Ok(v) => {
 			for (k, r) in v {
 				match r {
-					Ok(Some(d)) => check(&k, &d, "lookup", rep),
+					Ok(Some(d)) => check(&k, &d, &format!("{gen_tag}lookup"), rep),
 					Ok(None) => rep.violation("update|lookup|tile-missing", "a source tile is missing from the output", witness(json!({"tile": kstr(&k)}))),
 					Err(e) => rep.violation("update|lookup|error", "lookup failed on a valid tile", witness(json!({"tile": kstr(&k), "error": e}))),
 				}
@@ -338,7 +353,7 @@ fn update(cx: &CaseCtx, rep: &mut Report, rng: &mut Rng) {
 					let k = key_of(c);
 					if set.blobs.contains_key(&k) {
 						n += 1;
-						check(&k, b.as_slice(), "stream", rep);
+						check(&k, b.as_slice(), &format!("{gen_tag}stream"), rep);
 					} else {
 						rep.violation("update|stream|tile-from-nowhere", "stream delivered a tile the source does not have", witness(json!({"tile": kstr(&k)})));
 					}
@@ -349,6 +364,7 @@ fn update(cx: &CaseCtx, rep: &mut Report, rng: &mut Rng) {
 				}
 			}
 		}
+	}
 	}
 	if rep.wants_sample() {
 		rep.sample(json!({"kind": "update", "vpl": vpl, "csv_rows": csv.rows.len(), "tiles": set.blobs.len()}));
